@@ -109,9 +109,11 @@ def rand_config(rnd, kind=None):
         cfg["packver"] = [p for p in pv if set(p) <= set(alpha)] or None
         cfg["prefver"] = None
     if kind == "rot":
-        cfg.update(rot=rnd.choice([True, "split", "ne", "two", "perm"]), alpha=rnd.choice(["ab", "abc", "abc"]), symmetry=False)
+        cfg.update(rot=rnd.choice([True, "split", "ne", "two", "perm", "ow"]), alpha=rnd.choice(["ab", "abc", "abc"]), symmetry=False)
         if cfg["rot"] == "perm":
             cfg["alpha"] = "abc"
+        if cfg["rot"] == "ow":
+            cfg.update(alpha="abc", db=rnd.choice(["RuleDB", "RuleDB", "RuleDBForgetStrategy", "RuleDBForest"]))
         if cfg["rot"] == "split":  # cycles of one-way rules closed by a later equivalence: the union-find databases, frequent queries
             cfg.update(alpha="abc", db=rnd.choice(["RuleDB", "RuleDB", "RuleDBForgetStrategy"]), perc=rnd.choice([100, 100, 50]),
                        iterative=False, smallest=False)
